@@ -70,7 +70,7 @@ ANCHORS = [
 LINE_FILES = ("trimesh/intersections.py",)
 SHARDS = {"quick": 1, "thorough": 16}
 BUDGET = {"quick": 45, "thorough": 420}
-MIN_EVENTS = {"quick": 1500, "thorough": 15000}
+MIN_EVENTS = {"quick": 600, "thorough": 6000}
 EXHAUSTIVE = {"quick": False, "thorough": False}
 ASSUMPTIONS = [
     "float64 evaluation of the library on integer vertices / dyadic origins is accurate to 1e-9 "
@@ -434,9 +434,16 @@ class Ctx:
 
     def key(self, route, sym, **extra):
         parts = ["op=%s" % self.op, "route=%s" % route]
+        if sym == "repeated_index_face":
+            # produced by one incomplete filter whatever the placement / engine
+            return " ".join(parts + ["sym=%s" % sym])
         for k, v in sorted(extra.items()):
             parts.append("%s=%s" % (k, v))
-        parts += ["placement=%s" % self.placement(), "mesh=%s" % self.mclass, "sym=%s" % sym]
+        if extra.get("section_graph") != "branching":
+            # (a cap whose outline branches - figure-eight through a mesh vertex, in-plane edge
+            # fans - is one input class of its own: polygon recovery walks the outline graph)
+            parts += ["placement=%s" % self.placement(), "mesh=%s" % self.mclass]
+        parts.append("sym=%s" % sym)
         return " ".join(parts)
 
 
@@ -781,7 +788,7 @@ def op_multiplane(run, ctx):
 # ---------------------------------------------------------------------------- judges: slices
 
 
-def judge_slice(run, ctx, route, RV, RF, planes, faces=None, capped=False, label=""):
+def judge_slice(run, ctx, route, RV, RF, planes, faces=None, capped=False, label="", kx=None):
     """
     Result (RV, RF) of slicing the faces `faces` (None: all) by `planes` (kept: positive side
     of every plane).  Returns dict(area=..., ok=...).
@@ -801,7 +808,7 @@ def judge_slice(run, ctx, route, RV, RF, planes, faces=None, capped=False, label
             repeated = True
             ok = False
             _viol(run, ctx, route, "repeated_index_face", "slice result contains a face that uses one vertex twice",
-                  faces=RF[rep][:4].tolist(), side=label)
+                  faces=RF[rep][:4].tolist(), side=label, _key=dict(kx or {}))
     inplane_any = np.zeros(len(RF), dtype=bool)
     for pl in planes:
         nf = np.array([float(c) for c in pl.n])
@@ -811,7 +818,7 @@ def judge_slice(run, ctx, route, RV, RF, planes, faces=None, capped=False, label
         if len(used) and d[used].min() < -TOL:
             ok = False
             _viol(run, ctx, route, "negative_side", "slice result has a vertex on the negative side of a plane",
-                  min_signed_dist=float(d[used].min()), side=label)
+                  min_signed_dist=float(d[used].min()), side=label, _key=dict(kx or {}))
         if len(RF):
             inplane_any |= (np.abs(d[RF]) <= TOL).all(axis=1)
     if len(RF):
@@ -829,7 +836,7 @@ def judge_slice(run, ctx, route, RV, RF, planes, faces=None, capped=False, label
             if d.max() > TOL:
                 ok = False
                 _viol(run, ctx, route, "off_surface", "a face of the slice result does not lie on the original surface",
-                      max_dist=float(d.max()), side=label)
+                      max_dist=float(d.max()), side=label, _key=dict(kx or {}))
             else:
                 Fsrc = ctx.F if faces is None else ctx.F[np.asarray(faces)]
                 Ts = ctx.Vf[Fsrc]
@@ -845,7 +852,7 @@ def judge_slice(run, ctx, route, RV, RF, planes, faces=None, capped=False, label
                 if not same.any(axis=1).all():
                     ok = False
                     _viol(run, ctx, route, "orientation", "a face of the slice result is wound against the surface it lies on",
-                          n_bad=int((~same.any(axis=1)).sum()), side=label)
+                          n_bad=int((~same.any(axis=1)).sum()), side=label, _key=dict(kx or {}))
     return {"ok": ok, "area": area, "avec": avec, "inplane": inplane_any,
             "area_offplane": float(np.linalg.norm(np.cross(RV[RF[~inplane_any, 1]] - RV[RF[~inplane_any, 0]],
                                                            RV[RF[~inplane_any, 2]] - RV[RF[~inplane_any, 0]]), axis=1).sum() / 2.0)
@@ -989,7 +996,7 @@ def op_cap(run, ctx):
                   error=repr(e)[:300], side=label, _key=kx)
             return
         orc = C.SliceOracle(ctx.V, ctx.F, [p])
-        j = judge_slice(run, ctx, route, RV, RF, [p], capped=True, label=label)
+        j = judge_slice(run, ctx, route, RV, RF, [p], capped=True, label=label, kx=kx)
         if not j["ok"]:
             return
         lo, hi = orc.area_bounds()
